@@ -398,11 +398,38 @@ def make_loglike(strat, blobs, npts, d=1):
                 return {"reproduced": True, "signature": f"_log_like:pool={size}:AttributeError", "payload": {"pool": size},
                         "what": f"Sampler(pool={size})._core._log_like(x) raises AttributeError: {e}"}
             return {"reproduced": False, "what": f"pool={size} works"}
-        # order-sensitivity replay with a concrete pool double that completes tasks in reverse order
+        # order-sensitivity replay with concrete pool doubles: the completion order of the counterexample first, then every other
+        # permutation of the batch (npts <= 3)
+        import itertools as _it
+
+        def model_order():
+            remaining = list(range(npts))
+            order = []
+            for k in range(npts - 1):
+                j = None
+                for key, val in m.items():
+                    if key.endswith(f"1_ord{k}"):
+                        j = int(val)
+                j = 0 if j is None else max(0, min(j, len(remaining) - 1))
+                order.append(remaining.pop(j))
+            return order + remaining
+        orders = [tuple(model_order())] + [p_ for p_ in _it.permutations(range(npts))]
+        seen = set()
+        last = None
+        for order in orders:
+            if order in seen:
+                continue
+            seen.add(order)
+            last = _replay_order(order)
+            if last["reproduced"]:
+                return last
+        return last
+
+    def _replay_order(order):
         class RevPool:
             def map(self, f, xs):
                 xs = list(xs)
-                r = {i: f(xs[i]) for i in reversed(range(len(xs)))}
+                r = {i: f(xs[i]) for i in order if i < len(xs)}
                 return [r[i] for i in range(len(xs))]
 
             def imap(self, f, xs):
@@ -410,14 +437,14 @@ def make_loglike(strat, blobs, npts, d=1):
 
             def imap_unordered(self, f, xs):
                 xs = list(xs)
-                return iter([f(xs[i]) for i in reversed(range(len(xs)))])
+                return iter([f(xs[i]) for i in order if i < len(xs)])
         cnt = {"n": 0}
 
         def f(xr):
             cnt["n"] += 1
             return (-float(np.sum(xr ** 2)), float(np.sum(xr) * 7)) if blobs else -float(np.sum(xr ** 2))
         class RevExecutor(RevPool):
-            """concurrent.futures-style pool whose tasks finish in reverse submission order"""
+            """concurrent.futures-style pool whose tasks finish in the given order"""
             def submit(self, fn, *a, **k):
                 import concurrent.futures as cf
                 fut = cf.Future()
@@ -440,7 +467,9 @@ def make_loglike(strat, blobs, npts, d=1):
 
             def ac(fs, timeout=None):
                 fs = list(fs)
-                for fut, fn, a, k in reversed(getattr(ex, "pending", [])):
+                pend = getattr(ex, "pending", [])
+                for i in [i_ for i_ in order if i_ < len(pend)]:
+                    fut, fn, a, k = pend[i]
                     fut.set_result(fn(*a, **k))
                     yield fut
             cf.as_completed = ac
@@ -455,8 +484,8 @@ def make_loglike(strat, blobs, npts, d=1):
         ref = -np.sum(x ** 2, axis=1)
         bad = (len(logl) != npts) or (not np.allclose(logl, ref)) or cnt["n"] != npts or \
               (blobs and strat != "vectorized" and (bl is None or not np.allclose(np.asarray(bl, dtype=float).reshape(-1), 7 * x.sum(axis=1))))
-        return {"reproduced": bool(bad), "signature": f"_log_like:{strat}:{label}", "payload": {"logl": np.asarray(logl).tolist(), "expected": ref.tolist(), "evaluations": cnt["n"]},
-                "what": f"_log_like({strat}, blobs={blobs}) on {x.tolist()}: logl={np.asarray(logl).tolist()} expected {ref.tolist()}, {cnt['n']} evaluations"}
+        return {"reproduced": bool(bad), "signature": f"_log_like:{strat}:wrong-values-or-count", "payload": {"logl": np.asarray(logl).tolist(), "expected": ref.tolist(), "evaluations": cnt["n"], "completion_order": list(order)},
+                "what": f"_log_like({strat}, blobs={blobs}) on {x.tolist()} with tasks completing in the order {list(order)}: logl={np.asarray(logl).tolist()} expected {ref.tolist()}, {cnt['n']} evaluations"}
 
     return Obligation(f"loglike-{strat}-{'blobs' if blobs else 'noblobs'}-n{npts}", harness, replay=replay,
                       encodes=[core_mod.SamplerCore._log_like, core_mod.SamplerCore._get_distribute_func],
@@ -678,6 +707,87 @@ def make_resume_calls(strat):
                       stubs=["file system / dill -> by-value doubles (C08)", "likelihood -> counting uninterpreted callback"], theory="QF_LIA")
 
 
+def make_resume_then_iterate(strat):
+    """the reported count stays exact across a resume: a NEW sampler object resumes a checkpoint whose stored call count is symbolic and
+    performs one more iteration; reported calls == stored count + the evaluations the new object performed (loading + the iteration).
+    The likelihood is a concrete counting function (the iteration runs on numpy itself); only the stored count is symbolic."""
+    import tempfile
+    from pathlib import Path
+
+    def mk(cnt):
+        def fpt(xr):
+            cnt["n"] += 1
+            return -float(np.sum((xr - 0.3) ** 2))
+
+        def fb(xx):
+            cnt["n"] += len(xx)
+            return -np.sum((xx - 0.3) ** 2, axis=1)
+        kw = dict(n_dim=1, n_particles=4, clustering=False, random_state=1, n_steps=1, n_max_steps=2)
+        return Sampler(lambda u: u, fb, vectorize=True, **kw) if strat == "vectorized" else Sampler(lambda u: u, fpt, **kw)
+
+    def harness(ctx: PathCtx):
+        from vf.props.c08 import FakeFS, io_doubles
+        from vf.engine.real import SymInt
+        calls = integer(ctx, "calls_in_checkpoint", lo=0, hi=10 ** 6)
+        rs = np.random.get_state()
+        fs = FakeFS()
+        path = Path(tempfile.gettempdir()) / "vf_c13" / "ps_2.state"
+        try:
+            with io_doubles(fs), warnings.catch_warnings():
+                warnings.simplefilter("ignore")
+                cntA = {"n": 0}
+                A = mk(cntA)
+                A._core._initialize_fresh()
+                for _ in range(2):
+                    A.sample()
+                A.state.set_current("calls", calls)
+                A.save_state(path)
+                cntB = {"n": 0}
+                B = mk(cntB)
+                B._core._initialize_from_resume(path)
+                B.sample()
+        finally:
+            np.random.set_state(rs)
+        got = B.state._current["calls"]
+        ctx.check("calls-after-a-resumed-iteration==stored-count+evaluations-of-the-new-object",
+                  (SymInt.lift(got) == calls + cntB["n"]).z, detail={"evaluations_of_the_resuming_object": cntB["n"], "reported": str(got)})
+        hist = B.state._history["calls"]
+        ctx.check("calls-history-never-decreases-at-the-resume-point", (SymInt.lift(hist[-1]) >= SymInt.lift(calls)).z if len(hist) else z3.BoolVal(True))
+        return None
+
+    def replay(m, label, v):
+        import shutil
+        tmp = tempfile.mkdtemp(prefix="vf_c13_")
+        s0 = np.random.get_state()
+        try:
+            with warnings.catch_warnings():
+                warnings.simplefilter("ignore")
+                cntA, cntB = {"n": 0}, {"n": 0}
+                a = mk(cntA)
+                a._core._initialize_fresh()
+                for _ in range(2):
+                    a.sample()
+                a.save_state(Path(tmp) / "ck.state")
+                stored = int(a.state.get_current("calls"))
+                b = mk(cntB)
+                b._core._initialize_from_resume(Path(tmp) / "ck.state")
+                b.sample()
+                reported = int(b.state.get_current("calls"))
+        finally:
+            np.random.set_state(s0)
+            shutil.rmtree(tmp, ignore_errors=True)
+        bad = reported != stored + cntB["n"]
+        return {"reproduced": bool(bad), "signature": f"resume:{strat}:calls-not-carried-over-the-resume",
+                "payload": {"calls_in_checkpoint": stored, "evaluations_of_the_resuming_object": cntB["n"], "calls_after_one_resumed_iteration": reported},
+                "what": f"a new sampler resumed a checkpoint with {stored} calls, evaluated the likelihood at {cntB['n']} points (loading + one iteration) and reports {reported} calls"}
+
+    return Obligation(f"resume-then-iterate-calls-{strat}", harness, replay=replay,
+                      encodes=[core_mod.SamplerCore.save_sampler_state, core_mod.SamplerCore.load_sampler_state, core_mod.SamplerCore._initialize_from_resume,
+                               core_mod.SamplerCore.execute_iteration],
+                      bounds="two real iterations of 4 particles (d=1, concrete target), symbolic stored call count in [0, 10^6], one resumed iteration in a new object, strategy " + strat,
+                      stubs=["file system / dill -> by-value doubles (C08)", "likelihood -> concrete counting function"], theory="QF_LIA")
+
+
 def make_output_kind():
     """a pointwise identical likelihood may hand back its values in another container: single precision, or a read-only array (a view
     of a device buffer). The evaluation strategy must not leak that into the algorithm: the log-likelihoods the sampler works with are
@@ -746,7 +856,7 @@ def obligations(tier):
         for blobs in ((False, True) if not strat.startswith("vectorized") else (False,)):
             obs.append(make_loglike(strat, blobs, 3 if tier == "quick" else 3))
     obs += [make_paired("vectorized", "serial", "warmup"), make_paired("vectorized", "serial", "warmup", inf=True), make_paired("serial", "pool-object", "mcmc"),
-            make_paired("vectorized", "serial", "mcmc"), make_resume_calls("serial"), make_resume_calls("vectorized"), make_output_kind()]
+            make_paired("vectorized", "serial", "mcmc"), make_resume_calls("serial"), make_resume_calls("vectorized"), make_resume_then_iterate("serial"), make_resume_then_iterate("vectorized"), make_output_kind()]
     if tier == "thorough":
         obs += [make_paired("vectorized", "pool-object", "warmup"), make_paired("serial", "pool-int", "mcmc"),
                 make_paired("vectorized", "pool-object", "mcmc", d=1, n=3), make_loglike("pool-object", True, 4), make_loglike("pool-int", False, 4)]
